@@ -157,3 +157,191 @@ Proof. exact good_example. Qed.
 (* non-vacuity of the eps hypotheses: the coded regulariser *)
 Example C19_eps_positive : 0 < 1e-16.
 Proof. exact eps_example. Qed.
+
+(* ====================================================================================================================
+   FULL versions of the statements left partial above (proofs/Bloch2.v, proofs/Slr2.v).  They supersede
+   C19_abrm_hp_composition_partial, C19_blochsim_composition_partial and C19_ab2rf_inverts_partial, and add abrm_ptx.
+   ==================================================================================================================== *)
+From SV Require Import proofs.Bloch2 proofs.Slr2.
+
+(* [core] abrm_hp, whole function (per-sample loop AND the closing line  z = exp(1j/2*(xx*sum(gamgdt) + Nt*dom0dt))):
+   simulating w1 ++ w2 equals composing the two rotations.  Both halves are simulated by abrm_hp itself, i.e. started from
+   the identity state a = 1, b = 0 (the only start the Python function offers), at the same position x and off-resonance
+   dom0dt; each half closes with the phase of its OWN accumulated angle, and exp(i(p1+p2)/2) = exp(i p1/2) exp(i p2/2). *)
+Theorem C19_abrm_hp_composition :
+  forall (w1 w2 : list (CR * R)) x dom0dt,
+    abrm_hp (F:=RF) rcs (w1 ++ w2) x dom0dt =
+    su2_step (abrm_hp (F:=RF) rcs w2 x dom0dt) (abrm_hp (F:=RF) rcs w1 x dom0dt).
+Proof. exact abrm_hp_compose. Qed.
+Print Assumptions C19_abrm_hp_composition.
+
+(* the reason: with the closing phase, abrm_hp is an ordered product of SU(2)-form factors, one per sample,
+     av = cos(|r|/2) e^{i th/2},  bv = 1j*exp(1j*angle(r))*sin(|r|/2) e^{i th/2},  th = x*g + dom0dt,  |av|^2+|bv|^2 = 1 *)
+Theorem C19_abrm_hp_rotation_product :
+  forall (w : list (CR * R)) x dom0dt,
+    abrm_hp (F:=RF) rcs w x dom0dt = su2_run (map (hp_factor x dom0dt) w) st0.
+Proof. exact abrm_hp_su2. Qed.
+Print Assumptions C19_abrm_hp_rotation_product.
+
+Theorem C19_abrm_hp_factor_unit :
+  forall x dom0dt (rg : CR * R), nrm (hp_factor x dom0dt rg) = 1.
+Proof. exact hp_factor_norm. Qed.
+Print Assumptions C19_abrm_hp_factor_unit.
+
+(* continuation form: if instead the second half is run as the bare loop started from the RESULT of abrm_hp on w1
+   (closing phase of w1 already applied), it must be closed with the phase of w2's accumulated angle only *)
+Theorem C19_abrm_hp_continuation :
+  forall (w1 w2 : list (CR * R)) x dom0dt,
+    abrm_hp (F:=RF) rcs (w1 ++ w2) x dom0dt =
+    total_phase (F:=RF) rcs (x * fsum (F:=RF) (map snd w2) + IZR (Z.of_nat (length w2)) * dom0dt)
+      (abrm_hp_loop (F:=RF) rcs x dom0dt w2 (abrm_hp (F:=RF) rcs w1 x dom0dt)).
+Proof. exact abrm_hp_continue. Qed.
+Print Assumptions C19_abrm_hp_continuation.
+
+(* [core] optcont.blochsim, whole function (loop AND  z = exp(1j/2 * x @ sum(g, 0))).  Hypothesis = numpy's shape
+   requirement: every gradient row g[mm, :] has as many entries as the position x (1-D case: both of length 1). *)
+Theorem C19_blochsim_composition :
+  forall (w1 w2 : list (CR * list R)) x,
+    (forall rg, In rg w1 -> length (snd rg) = length x) ->
+    (forall rg, In rg w2 -> length (snd rg) = length x) ->
+    blochsim (F:=RF) rcs (w1 ++ w2) x = su2_step (blochsim (F:=RF) rcs w2 x) (blochsim (F:=RF) rcs w1 x).
+Proof. exact blochsim_compose. Qed.
+Print Assumptions C19_blochsim_composition.
+
+Theorem C19_blochsim_rotation_product :
+  forall (w : list (CR * list R)) x,
+    (forall rg, In rg w -> length (snd rg) = length x) ->
+    blochsim (F:=RF) rcs w x = su2_run (map (bs_factor x) w) st0.
+Proof. exact blochsim_su2. Qed.
+Print Assumptions C19_blochsim_rotation_product.
+
+Theorem C19_blochsim_factor_unit :
+  forall x (rg : CR * list R), nrm (bs_factor x rg) = 1.
+Proof. exact bs_factor_norm. Qed.
+Print Assumptions C19_blochsim_factor_unit.
+
+Theorem C19_blochsim_continuation :
+  forall (w1 w2 : list (CR * list R)) x,
+    (forall rg, In rg w1 -> length (snd rg) = length x) ->
+    (forall rg, In rg w2 -> length (snd rg) = length x) ->
+    blochsim (F:=RF) rcs (w1 ++ w2) x =
+    total_phase (F:=RF) rcs (dot (F:=RF) x (vsum (F:=RF) (map (fun _ => f0) x) (map snd w2)))
+      (blochsim_loop (F:=RF) rcs x w2 (blochsim (F:=RF) rcs w1 x)).
+Proof. exact blochsim_continue. Qed.
+Print Assumptions C19_blochsim_continuation.
+
+Example C19_blochsim_hypotheses_satisfiable :
+  forall rg, In rg [((1, 0), [3; 4]); ((0, 1), [5; 6])] -> length (snd rg) = length [1; 2].
+Proof. exact rows_ok_example. Qed.
+
+(* [core] abrm_ptx (any sens, fmap, gradient, dt).  The function returns a = statea, b = -conj(stateb) (ptx_out, an
+   involution); the internal state composes as an SU(2) product, so on the outputs:
+   convert both results back to states, take the product (first column of M2*M1), convert to outputs — exactly what the
+   numerical oracle of props/C19.py computes — or explicitly  a = a2*a1 - b2*conj(b1),  b = a2*b1 + b2*conj(a1). *)
+Theorem C19_abrm_ptx_composition :
+  forall dtgam boff (sens : list CR) x (w1 w2 : list (list CR * list R)),
+    abrm_ptx (F:=RF) rcs dtgam boff sens x (w1 ++ w2) =
+    ptx_out (su2_step (ptx_out (abrm_ptx (F:=RF) rcs dtgam boff sens x w2))
+                      (ptx_out (abrm_ptx (F:=RF) rcs dtgam boff sens x w1))).
+Proof. exact abrm_ptx_compose. Qed.
+Print Assumptions C19_abrm_ptx_composition.
+
+Theorem C19_abrm_ptx_composition_explicit :
+  forall dtgam boff (sens : list CR) x (w1 w2 : list (list CR * list R)),
+    let s1 := abrm_ptx (F:=RF) rcs dtgam boff sens x w1 in
+    let s2 := abrm_ptx (F:=RF) rcs dtgam boff sens x w2 in
+    abrm_ptx (F:=RF) rcs dtgam boff sens x (w1 ++ w2) =
+    (csub (F:=RF) (cmul (F:=RF) (fst s2) (fst s1)) (cmul (F:=RF) (snd s2) (cconj (F:=RF) (snd s1))),
+     cadd (F:=RF) (cmul (F:=RF) (fst s2) (snd s1)) (cmul (F:=RF) (snd s2) (cconj (F:=RF) (fst s1)))).
+Proof. exact abrm_ptx_compose_explicit. Qed.
+Print Assumptions C19_abrm_ptx_composition_explicit.
+
+(* [core] abrm_ptx: zero RF on every coil at every time step => b = 0 and |a| = 1 *)
+Theorem C19_abrm_ptx_zero_rf :
+  forall dtgam boff (sens : list CR) x (w : list (list CR * list R)),
+    (forall bg, In bg w -> forall c, In c (fst bg) -> c = c0) ->
+    snd (abrm_ptx (F:=RF) rcs dtgam boff sens x w) = c0 /\ n2 (fst (abrm_ptx (F:=RF) rcs dtgam boff sens x w)) = 1.
+Proof. exact abrm_ptx_zero_rf. Qed.
+Print Assumptions C19_abrm_ptx_zero_rf.
+
+(* ... already when the combined transverse field sens @ b1[:, t] vanishes at every step *)
+Theorem C19_abrm_ptx_zero_bxy :
+  forall dtgam boff (sens : list CR) x (w : list (list CR * list R)),
+    (forall bg, In bg w -> cdot (F:=RF) sens (fst bg) = c0) ->
+    snd (abrm_ptx (F:=RF) rcs dtgam boff sens x w) = c0.
+Proof. exact abrm_ptx_zero_bxy. Qed.
+Print Assumptions C19_abrm_ptx_zero_bxy.
+
+(* ---- SLR: the last line of ab2rf.  arctan2 is defined from Coq's atan by the quadrant cases (Slr2.Ratan2; real-number
+   reading of np.arctan2), angle(z) = arctan2(im z, re z), exp(1j*t) = cis t = (cos t, sin t).  No hypothesis on them. *)
+Theorem C19_arctan2_inverts_polar :
+  forall t, - (PI / 2) < t < PI / 2 -> Ratan2 (sin t) (cos t) = t.
+Proof. exact atan2_sin_cos. Qed.
+Print Assumptions C19_arctan2_inverts_polar.
+
+(* exp(1j*angle(z)) = z/|z|, and 1 at z = 0: the reading of the simulators' unit phasor is a theorem, not an assumption *)
+Theorem C19_exp_angle_is_unit_phasor :
+  forall z : CR, cis (Ratan2 (snd z) (fst z)) = unit_phasor (F:=RF) z.
+Proof. exact cis_angle_unit_phasor. Qed.
+Print Assumptions C19_exp_angle_is_unit_phasor.
+
+(* rf = 2*arctan2(|s|, c)*exp(1j*angle(s))  inverts  r |-> (c, s) = (cos(|r|/2), exp(1j*angle(r))*sin(|r|/2))  for |r| < pi,
+   and conversely on rotation parameters with c > 0, c^2 + |s|^2 = 1 *)
+Theorem C19_ab2rf_last_line :
+  forall r : CR, sqrt (n2 r) < PI ->
+    let c := cos (sqrt (n2 r) / 2) in
+    let s := cscale (F:=RF) (sin (sqrt (n2 r) / 2)) (cis (Rangle r)) in
+    cscale (F:=RF) (2 * Ratan2 (sqrt (n2 s)) c) (cis (Rangle s)) = r.
+Proof. exact cs2rf_rf2cs. Qed.
+Print Assumptions C19_ab2rf_last_line.
+
+Theorem C19_ab2rf_last_line_converse :
+  forall m : R * CR, 0 < fst m /\ fst m * fst m + n2 (snd m) = 1 -> rf2cs (cs2rf m) = m.
+Proof. exact rf2cs_cs2rf. Qed.
+Print Assumptions C19_ab2rf_last_line_converse.
+
+(* [core] FULL: ab2rf = (peeling recursion of model/Bloch.v, then the last line on every peeled pair) inverts the forward
+   SLR transform (rotation parameters of every sample, then the hard-pulse polynomial recursion) whenever |theta_j| < pi *)
+Theorem C19_ab2rf_inverts :
+  forall rf : list CR,
+    (forall r, In r rf -> sqrt (n2 r) < PI) ->
+    map cs2rf (ab2cs (F:=RF) (fst (slr_fwd (F:=RF) (map rf2cs rf))) (snd (slr_fwd (F:=RF) (map rf2cs rf)))) = rf.
+Proof. exact ab2rf_forward_slr. Qed.
+Print Assumptions C19_ab2rf_inverts.
+
+Example C19_ab2rf_full_hypotheses_satisfiable :
+  forall r, In r [((PI / 2) * (3 / 5), (PI / 2) * (4 / 5)); (2 * PI / 3, 0); (0, 0)] -> sqrt (n2 r) < PI.
+Proof. exact rf_example. Qed.
+
+(* [core] hard-pulse simulation evaluates the forward SLR polynomials.  For a non-empty hard-pulse train rf under a
+   constant gradient sample g and off-resonance d, at position x, with th = x*g + d, w = exp(1j*th), N = len rf and
+   (A, B) = forward_slr rf:
+     a = exp(1j*N*th/2) * conj(sum_k A[k] w^(N-1-k)),   b = exp(1j*N*th/2) * 1j * conj(sum_k B[k] w^(N-1-k))
+   (stof w (A, B) = (conj(prev A w), 1j*conj(prev B w)), prev = Horner from the left). *)
+Theorem C19_abrm_hp_evaluates_forward_slr :
+  forall (r0 : CR) (rs : list CR) g x d,
+    let rf := r0 :: rs in
+    let rfg := map (fun r => (r, g)) rf in
+    abrm_hp (F:=RF) rcs rfg x d =
+    total_phase (F:=RF) rcs (x * fsum (F:=RF) (map snd rfg) + IZR (Z.of_nat (length rfg)) * d)
+      (stof (cis (x * g + d)) (forward_slr rf)).
+Proof. exact abrm_hp_forward_slr. Qed.
+Print Assumptions C19_abrm_hp_evaluates_forward_slr.
+
+(* [core] the inverse SLR transform is inverted by hard-pulse simulation: for the polynomial pair (A, B) of ANY hard-pulse
+   train with |theta_j| < pi, abrm_hp(ab2rf(A, B)) under a constant gradient returns (A, B) evaluated at the position's
+   phase; in particular |a| = |A(e^{-i th})| and |b| = |B(e^{-i th})| (peval p v = sum_k p[k] v^k) — the quantity the
+   numerical round trip of props/C19.py measures. *)
+Theorem C19_slr_inverted_by_hard_pulse_simulation :
+  forall (r0 : CR) (rs : list CR) g x d,
+    (forall r, In r (r0 :: rs) -> sqrt (n2 r) < PI) ->
+    let A := fst (forward_slr (r0 :: rs)) in
+    let B := snd (forward_slr (r0 :: rs)) in
+    let rfg := map (fun r => (r, g)) (ab2rf A B) in
+    abrm_hp (F:=RF) rcs rfg x d =
+      total_phase (F:=RF) rcs (x * fsum (F:=RF) (map snd rfg) + IZR (Z.of_nat (length rfg)) * d)
+        (stof (cis (x * g + d)) (A, B)) /\
+    n2 (fst (abrm_hp (F:=RF) rcs rfg x d)) = n2 (peval A (cis (- (x * g + d)))) /\
+    n2 (snd (abrm_hp (F:=RF) rcs rfg x d)) = n2 (peval B (cis (- (x * g + d)))).
+Proof. exact abrm_hp_ab2rf_roundtrip. Qed.
+Print Assumptions C19_slr_inverted_by_hard_pulse_simulation.
